@@ -75,6 +75,25 @@ def cases(tier, seed):
     rates = [0, 3, 64, 0.125, 0.3, 5, 6, 12, 24, 48, -3, -8, -16, -5, 128, 0.75, 1.5, '3', '0.125', -2, -4, 1, 2, 4, 8, 16, 32, 0.5, 0.25]
     dimsv = [1, 2, 3, 4, 5, 6, 8, 12, 16, 24, 32, 48, 64, 100, 128, 256, 512, 1024, 2048, 4096, 8192, -1]
     seen = set()
+    # deterministic family: non-power-of-two rates whose FLOORED quotient for the free dimension is a power of two >= 4, i.e. settings
+    # that look valid after resolution but do not fill the disk block
+    fam = []
+    for r in [3, 5, 6, 7, 9, 10, 11, 12, 13, 14, 15, 1.5, 1.75, 0.75, 0.3, 0.48, 24, 48, 0.9, 2.5]:
+        for a in (4, 8, 16, 64):
+            for b in (4, 16, 64, 256):
+                q = int(32768 // (a * b * r))
+                if q >= 4 and q & (q - 1) == 0 and a * b * q * r != 32768:
+                    for pos in range(3):
+                        bs = [a, b]
+                        bs.insert(pos, -1)
+                        fam.append((r, bs))
+    rng.shuffle(fam)
+    for r, bs in fam[:80 if tier == 'quick' else 600]:
+        key = (False, str(r), tuple(bs))
+        if key not in seen:
+            seen.add(key)
+            nm.append({'id': '3d:near:floor:%s:%s' % (r, 'x'.join(map(str, bs))), 'dim': '3d', 'rate_arg': r, 'bs_arg': bs, 'valid': None, 'spelling': 'near-miss', 'cost': 1})
+    n += len(nm)
     while len(nm) < n:
         is2d = rng.random() < 0.3
         r = rng.choice(rates)
